@@ -1,6 +1,6 @@
 # C10 / C11 / C12 / C31: timed sources, cancellation, stop (TimerTrace.tla + harness/sysdrive.py, virtual time)
 import json, os, random, multiprocessing as mp
-from harness import common, tlc, dsched, sysdrive
+from harness import common, tlc, dsched, sysdrive, syscheck
 from checks.conc import ASSUME_B
 
 H = 14
@@ -124,6 +124,14 @@ def check(prop):
                          "blocked": r["blocked"]})
         else:
           others[p] = others.get(p, 0) + 1
+    # the same executions against System.tla: every queue operation, every dispatch, start/stop (C12: no step after stop() returned;
+    # C10: a timed post lands at the end of the queue its kind names)
+    sv, st = syscheck.validate(results, 40, lenient_done=True)
+    for p2, k in syscheck.file_violations(run, prop, results, sv).items():
+      others[p2] = others.get(p2, 0) + k
+    run.add(system_level_states=st.distinct, system_level_dispatches=sum(sum(x.get("dispatched", {}).values()) for x in sv.values()))
+    if tier != "quick" or prop == "C12":
+      run.add(system_trace_binding_demo=syscheck.binding_demo(results, 40, lenient_done=True))
     run.add(traces_validated_against_impl=len(results), evaluations=len(results), states=t.distinct, transitions=t.generated,
             distinct_nontrivial=len({json.dumps([r["cfg"], r["schedule"]]) for _, r in results}), timer_posts_validated=fires,
             executions_with_slow_threads=sum(1 for _, r in results if r.get("stalls")),
